@@ -24,11 +24,23 @@ def run_cases(ctx, cases):
     """cases: list of dicts with t, v, optional top, modes, tag.  Returns (records, crashes)."""
     for i, c in enumerate(cases):
         c["id"] = i + 1
-    send = [{k: c[k] for k in ("id", "t", "v", "top", "modes") if k in c} for c in cases]
+    send = [{k: c[k] for k in ("id", "t", "v", "top", "modes", "seq") if k in c} for c in cases]
     obs_by_id, crashes = hv.run_harness_resilient("io", send, timeout=1800)
     lines, index = [], []
     for c in cases:
         o = obs_by_id.get(c["id"])
+        if o and o.get("seq_modes") and not o.get("build_err"):
+            # a sequence through one encoder: map the observation onto the common shape
+            o["modes"] = {}
+            for m, so in sorted(o["seq_modes"].items()):
+                o["modes"][m] = {"hex": so.get("hex"), "enc_err": so.get("enc_err"), "enc_panic": so.get("enc_panic"),
+                                 "rt": so.get("rt", ""), "rt_err": so.get("dec_err"), "rt_panic": so.get("dec_panic")}
+                o["modes"][m] = {k: v for k, v in o["modes"][m].items() if v}
+                o["modes"][m].setdefault("rt", "")
+                o["sexp"] = " ; ".join(so["steps"])
+                lines.append("seq\t%s\t%s\t%s" % (m, so.get("hex") or "-", "\t".join(so["steps"])))
+                index.append((c["id"], m))
+            continue
         if not o or o.get("build_err") or not o.get("sexp"):
             continue
         for m, mo in sorted(o.get("modes", {}).items()):
